@@ -46,12 +46,12 @@ var c14Ends = []string{"eof", "silent-timeout", "read-error"}
 var c14Chunks = []string{"one-chunk", "chunk-per-request", "dribble-1-byte"}
 
 type c14Case struct {
-	Entry int   `json:"entry"` // 0 ServeConn, 1 Serve over a fake listener
-	RMU   bool  `json:"reduce_memory_usage"`
-	PerIP bool  `json:"max_conns_per_ip_1"`
-	Segs  []int `json:"segs"`
-	End   int   `json:"end"`
-	Chunk int   `json:"chunk"`
+	Entry int    `json:"entry"` // 0 ServeConn, 1 Serve over a fake listener
+	RMU   bool   `json:"reduce_memory_usage"`
+	PerIP bool   `json:"max_conns_per_ip_1"`
+	Segs  []int  `json:"segs"`
+	End   int    `json:"end"`
+	Chunk int    `json:"chunk"`
 	Text  string `json:"text,omitempty"`
 }
 
@@ -97,16 +97,16 @@ func c14NewConn(name string, chunks [][]byte, atEnd error) *c14Conn {
 
 // c14World is one execution: server, connections, recorder.
 type c14World struct {
-	cs       c14Case
-	s        *Server
-	mu       sync.Mutex
-	byWrap   map[net.Conn]*c14Conn // perIPConn wrapper -> connection (the wrapper forgets its Conn on Close)
-	stack    []*c14Conn            // connections inside a (nested) ServeConn call
-	conns    []*c14Conn
-	unknown  int
-	ln       *c14Listener
-	hijacked chan struct{}
-	b        *c14Conn
+	cs          c14Case
+	s           *Server
+	mu          sync.Mutex
+	byWrap      map[net.Conn]*c14Conn // perIPConn wrapper -> connection (the wrapper forgets its Conn on Close)
+	stack       []*c14Conn            // connections inside a (nested) ServeConn call
+	conns       []*c14Conn
+	unknown     int
+	ln          *c14Listener
+	hijacked    chan struct{}
+	b           *c14Conn
 	hijackPanic string
 }
 
